@@ -471,7 +471,16 @@ def c20_plans(tier):
 CHECKS["C20"] = make_check("C20", c20_plans,
     "the C09 decision-table transitions and random multi-log histories of mixed verdicts; a recording MetricFactory (installed before the first witness.New in a dedicated "
     "process) is read after every step for every log and judged by CountersTrue (attempt, success, invalid-consistency, inconsistent-checkpoints; nothing else moves); "
-    "distinct = distinct (pre-state, request, verdict) of update steps", any_update)
+    "the TLC-listed storage-failure placements are executed too (a failed write must not count as a success); distinct = distinct (pre-state, request, verdict) of update steps", any_update,
+    post_all=lambda work, rep, tier, seed: c20_faults(work, rep, tier, seed))
+
+
+def c20_faults(work, rep, tier, seed):
+    import checks_ops
+    evs, _ = checks_ops.fault_pipeline(work, rep, "quick", seed, "C20")
+    ups = [e for e in evs if e.get("e") == "update"]
+    rep.cov["evaluations"] += len(ups)
+    rep.cov["updates_under_storage_failures"] = sum(1 for e in ups if e.get("fired"))
 
 # ----------------------------------------------------------------------------- C16
 
